@@ -51,7 +51,7 @@ theorem findOrAddCore_frame (i : Nat) (v w : Int) (m : Mgr) :
 theorem findOrAdd_eq_core (i : Nat) (v w : Int) (m : Mgr) (hc : m.ctx = false) :
     findOrAdd (i : Int) v w m = findOrAddCore i v w m := by
   have hi : ¬ ((i : Int) < 0) := by omega
-  simp [findOrAdd, bind, M.bind', M.get, hc, hi]
+  simp [findOrAdd, hc, hi]
 
 /-! ### assignments of names as assignments of levels -/
 
